@@ -71,6 +71,9 @@ CLAIMED = {
  "C31": ("constant/provenance evaluation of every read timeout in the terminal reader (TIMEOUT-ALL)",
          "Structural necessary condition for 'never blocks past its timeout': every read after the first byte of an event carries a timeout that is a positive package constant or the caller's own; blocking reads are first on every path and outside loops. Decoding correctness is not decided.",
          "trusts go/ssa; unix reader only (reader_unix.go)"),
+ "C33": ("who-may-construct rule for ui.Text values with a guarded single-segment idiom and an audit table (NF-BUILDER)",
+         "Structural necessary condition for the normal-form clause inside pkg/ui: a Text is assembled by hand only inside the normalising API (TextBuilder, TextFromSegment, Concat), as a single non-empty segment, or at audited sites that preserve normal form; one known finding (StyleText, pinned by an existing unit test). Content equalities and the styledown round trip are not decided.",
+         "trusts go/ssa and the normalising API itself; Text values assembled outside pkg/ui are not examined"),
  "C40": ("ownership pairing for opened descriptors (OPEN-OWNED), must-call rule for returned cleanup functions on all success paths (CLEANUP-CALLED), close-before-overwrite dominance (REPLACE-CLOSES), spawn/join pairing (JOINED)",
          "Structural necessary conditions: every descriptor the evaluator opens is closed in place or recorded as owned by a form whose epilogue closes it; every cleanup function of a capture/pipe/file port is called or handed on on every path; a redirection closes the port it replaces; every goroutine is joined. Descriptor counts and the os.Pipe-failure path are not decided.",
          "trusts go/ssa; audited: process-lifetime /dev/null handle and black-hole drain"),
